@@ -35,6 +35,20 @@ def chunk_descs(rng, n, tag):
     return out
 
 
+def same_data_descs(rng, n, tag):
+    """ the same hits in every chunk, processed with different smoothing (and other) parameters: anything remembered about the hits
+    of one chunk must not reach another one """
+    d0 = randscenes.rand_scene(rng, 'mid', name=f'{tag}:c0')
+    d0.pop('index', None)
+    out = []
+    for j in range(n):
+        d = dict(d0, name=f'{tag}:c{j}', prms=dict(d0['prms']))
+        d['prms']['LOWESS'] = {'frac': [0.35, 0.9, 0.6][j % 3], 'it': [3, 1, 2][j % 3]}
+        d['prms']['MAX_HITS_OKTA0'] = [0, 3, 1][j % 3]
+        out.append(d)
+    return out
+
+
 def multimodal_desc(rng, tag):
     """ a group of four thin sub-layers 200 ft apart: its three-component mixture fit has several local optima, so the
     outcome depends on the generator the fit starts from (a shared generator shows) """
@@ -76,13 +90,13 @@ def run(out, tier, seed):
     mcs.append(st2)
     jobs = []
     for k, s in enumerate(sch2):
-        jobs.append({'name': f'il2:{k}', 'chunks': chunk_descs(random.Random(f'C13:{seed}:{k % 12}'), 2, f'il2:{k}'), 'order': s, 'nstages': 5,
+        jobs.append({'name': f'il2:{k}', 'chunks': (same_data_descs if k % 3 == 0 else chunk_descs)(random.Random(f'C13:{seed}:{k % 12}'), 2, f'il2:{k}'), 'order': s, 'nstages': 5,
                      'edit_global_at': rng.randrange(0, 8)})
     st3, sch3 = schedules(3, 4)
     mcs.append(st3)
     pick = rng.sample(sch3, 300 if tier == 'quick' else len(sch3))
     for k, s in enumerate(pick):
-        jobs.append({'name': f'il3:{k}', 'chunks': chunk_descs(random.Random(f'C13b:{seed}:{k % 12}'), 3, f'il3:{k}'), 'order': s, 'nstages': 4,
+        jobs.append({'name': f'il3:{k}', 'chunks': (same_data_descs if k % 3 == 0 else chunk_descs)(random.Random(f'C13b:{seed}:{k % 12}'), 3, f'il3:{k}'), 'order': s, 'nstages': 4,
                      'edit_global_at': rng.randrange(0, 9) if k % 2 else None})
     # line-granularity thread schedules
     tjobs = []
